@@ -6,9 +6,9 @@ import (
 	"verif/lib/refrlp"
 )
 
-func rlpBytes(b []byte) []byte      { return refrlp.EncodeString(b) }
-func rlpUint(x uint64) []byte       { return refrlp.EncodeUint(x) }
-func rlpBig(x *big.Int) []byte      { return refrlp.EncodeString(x.Bytes()) }
+func rlpBytes(b []byte) []byte       { return refrlp.EncodeString(b) }
+func rlpUint(x uint64) []byte        { return refrlp.EncodeUint(x) }
+func rlpBig(x *big.Int) []byte       { return refrlp.EncodeString(x.Bytes()) }
 func rlpList(items ...[]byte) []byte { return refrlp.EncodeListRaw(items...) }
 
 // AccessTuple is one EIP-2930 access list entry.
